@@ -408,6 +408,9 @@ func (ecd Encoder) RingQ2T(level int, scaleDown bool, pQ, pT ring.Poly) {
 		if gap == 1 {
 			ringQ.AddScalarBigint(poly, ecd.qHalf[level], ecd.bufQ)
 			ring.ModUpExact(ecd.bufQ.Coeffs[:level+1], pT.Coeffs, ringQ, ringT, ecd.paramsQP[level])
+			// ModUpExact returns values in [0, 2T-1]: pT holds integers modulo T (it is handed as such
+			// to the callers' functions over the plaintext ring).
+			ringT.Reduce(pT, pT)
 			ringT.SubScalarBigint(pT, ecd.qHalf[level], pT)
 		} else {
 			ringQ.PolyToBigintCentered(poly, gap, ecd.bufB)
